@@ -38,7 +38,7 @@ Lemma d_step_store (P : store -> Prop) cfg hint st e :
   (forall p hs, e = EHeaders p hs -> P (d_store st) -> P (hres_store (hloop (c_forb cfg) (d_next st) (d_store st) false None hs))) ->
   P (d_store (fst (d_step cfg hint st e))).
 Proof.
-  intros Hs Hl. destruct e as [p cand lb|p hs|p l|p|aged]; try (rewrite d_step_store_other; [exact Hs| intros; discriminate]).
+  intros Hs Hl. destruct e as [p cand lb|p hs|p l|p|aged|p cand lb]; try (rewrite d_step_store_other; [exact Hs| intros; discriminate]).
   cbn [d_step]. apply on_headers_store; [exact Hs| apply (Hl p hs eq_refl)].
 Qed.
 
